@@ -90,10 +90,32 @@ func loadFmt(g *lookup) {
 	g.Set("fmt.Sprintf", NewFunc(2, 1, func(v *VM, args []Value, vargs ...Value) []Value {
 		var va []any
 		for _, v := range vargs {
-			va = append(va, v)
+			va = append(va, fmtOperand(v))
 		}
 		return []Value{String(fmt.Sprintf(args[0].String(), va...))}
 	}))
+}
+
+// fmtOperand hands scalars to fmt as the Go values they stand for, so that
+// verbs other than %v and %s see a number, string or bool, not a Value struct.
+func fmtOperand(v Value) any {
+	switch v.t {
+	case TypeBool:
+		return v.Bool()
+	case TypeInt32, untypedInt:
+		return int(v.Int32())
+	case TypeUint32:
+		return uint(v.Uint32())
+	case TypeInt8:
+		return v.Int8()
+	case TypeUint8:
+		return v.Uint8()
+	case TypeFloat64:
+		return v.num
+	case TypeString:
+		return string(v.value.(stringT))
+	}
+	return v
 }
 
 func loadErrors(g *lookup) {
